@@ -323,6 +323,11 @@ def run_shard(ctx):
         check_pattern(f"({bad_cls})", "reject", "class-fault")
         check_pattern(f"({P}Bin @left=({bad_cls} @v) -> x)", "reject", "class-fault")
         check_pattern(f"({P}Leaf|{bad_cls})", "reject", "class-fault")
+        # ... also when the faulty name comes after the base class (which alone would match everything) or in the middle
+        check_pattern(f"(ASTNode | {bad_cls})", "reject", "class-fault")
+        check_pattern(f"({P}Leaf | ASTNode | {bad_cls})", "reject", "class-fault")
+        check_pattern(f"({P}Un @child=(ASTNode|{bad_cls}|{P}Leaf))", "reject", "class-fault")
+        check_pattern(f"(ASTNode | {P}Leaf)", "accept", "class-ok")
         ctx.count("duplicate_capture")
         check_pattern(f"({P}Bin @left -> a @right -> a)", "reject", "duplicate-capture")
         check_pattern(f"({P}List @items=[(*) -> a * -> a])", "reject", "duplicate-capture")
